@@ -143,11 +143,6 @@ Lemma law_bytes (s : list Z) r : Z.of_nat (List.length s) < 2 ^ 64 -> dec_bytes 
 Proof. intros H. unfold dec_bytes, enc_bytes. rewrite <- app_assoc.
   rewrite law_unsigned by (change (256 ^ Z.of_nat 8) with (2 ^ 64); lia). rewrite Nat2Z.id. apply take_app. Qed.
 (* strings: through their bytes *)
-Definition str_of_bytes (l : list Z) : string := string_of_list_ascii (map (fun z => ascii_of_N (Z.to_N z)) l).
-Lemma str_of_bytes_of s : str_of_bytes (bytes_of s) = s.
-Proof. unfold str_of_bytes, bytes_of. rewrite map_map.
-  rewrite (map_ext _ (fun a => a)); [now rewrite map_id, string_of_list_ascii_of_string|].
-  intros a. unfold byte_of. now rewrite N2Z.id, ascii_N_embedding. Qed.
 Definition enc_str (s : string) : list Z := le_bytes 8 (Z.of_nat (String.length s)) ++ bytes_of s.
 Definition dec_str (inp : list Z) : option (string * list Z) :=
   match dec_bytes inp with Some (l, r) => Some (str_of_bytes l, r) | None => None end.
